@@ -127,7 +127,9 @@ def memLoop (hdr endp : Nat) : Nat → Mem → Nat → Nat → List Region × St
         | some m1 => memAfter m1 hdr cur stop memReserved (memLoop hdr endp f)
       else memAfter m hdr cur stop ty (memLoop hdr endp f)
 
-def visitMemRegions (m : Mem) (stop : Nat) (fuel : Nat := m.blk.length + 1) : List Region × Status × Mem :=
+/-- fuel: a walk that stops after `stop` visits needs at most `stop` rounds; one that never stops
+either reaches `endPtr` within `blk.length` rounds on a block it stays inside, or never -/
+def visitMemRegions (m : Mem) (stop : Nat) (fuel : Nat := m.blk.length + 1 + stop) : List Region × Status × Mem :=
   match findTag m tagMemoryMap with
   | .fault => ([], .fault, m)
   | .fuel => ([], .fuel, m)
